@@ -338,13 +338,17 @@ func Run(t *testing.T, sp Spec) (res *Result) {
 								}()
 							}
 							id, data, err := wf.Execute(ctx, c.Input)
-							// The instant Execute returns: what is still alive / deployed? (no park in between)
-							r.LeakedAtReturn = s.LiveEngineGoroutines()
-							for _, d := range w.Deployments() {
-								if d.OK && !d.Probe && d.Closes.Load() == 0 {
-									r.OpenAtReturn = append(r.OpenAtReturn, d.N)
+							// What is still alive / deployed when Execute has returned? Sampled by the scheduler at the
+							// next quiescent point, before anything else is released: goroutines that were just
+							// exiting have gone by then, everything else that is left is a genuine leftover.
+							simrt.EnvQuiesce("env:returned", func() {
+								r.LeakedAtReturn = s.LiveEngineGoroutinesOf("env/client/" + c.Name + "/")
+								for _, d := range w.Deployments() {
+									if d.OK && !d.Probe && d.Closes.Load() == 0 && strings.HasPrefix(d.By, "env/client/"+c.Name+"/") {
+										r.OpenAtReturn = append(r.OpenAtReturn, d.N)
+									}
 								}
-							}
+							})
 							r.OutputID, r.OutputData = id, Canon(data)
 							if err != nil {
 								r.Err, r.ErrClass = err.Error(), ErrClass(err)
